@@ -92,7 +92,32 @@ let flag_keys = [ 'P', "verified-without-participation"; 'F', "verified-future-s
                   'C', "verified-bad-committee-branch"; 'S', "verified-bad-signature"; 'K', "verified-wrong-signer-set";
                   'T', "verified-unknown-wire-type" ]
 
-let hist_monitors (steps : pstep list) (truths : string list) (impl : string) : string list =
+(* Monitors derived from the proved characterisation of acceptance (C12_verify_sound + C12_verify_complete: the model's
+   verify accepts exactly the updates that satisfy the listed conditions) evaluated on the store the proved-correct model
+   holds at that point of the history: "the implementation accepted, the characterisation says condition X fails" is a
+   violation of clause X with this very history as the input - also when an earlier faulty step has left the
+   implementation's own store in a state from which the update looks fine. *)
+let model_says (st : pstep) (genesis : byte list) (mres : string) : string option =
+  if not (starts mres "err") then None else
+  let cls = try int_of_string (String.sub mres 3 (String.length mres - 3)) with _ -> 0 in
+  match cls, st.conv with
+  | 1, _ -> Some "verified-without-participation"
+  | 2, Ok u -> if int_n u.u_sigslot > int_n st.now then Some "verified-future-slot" else Some "verified-unordered-slots"
+  | 3, _ -> Some "verified-wrong-period"
+  | 4, _ -> Some "verified-irrelevant-update"
+  | 5, _ -> Some "verified-bad-finality-branch"
+  | 6, _ -> Some "verified-bad-committee-branch"
+  | (7 | 8 | 9), Ok u ->
+    (match u.u_sig with
+     | SigOf (_, m) when ub m = ub (committee_sign_root genesis (htr_header u.u_attested) st.fork) -> Some "verified-wrong-signer-set"
+     | _ -> Some "verified-bad-signature")
+  | 13, _ -> Some "verified-unknown-wire-type"
+  | _ -> None
+let next_of_update (st : pstep) = match st.conv with
+  | Ok u -> (match u.u_next with Some c -> bhex c.c_root | None -> "-")
+  | _ -> "-"
+
+let hist_monitors (steps : pstep list) (truths : string list) (mres : string list) (genesis : byte list) (impl : string) : string list =
   let fails = ref [] in
   let add k d = fails := (k ^ " " ^ d) :: !fails in
   let body = if starts impl "ok " then String.sub impl 3 (String.length impl - 3) else impl in
@@ -112,9 +137,18 @@ let hist_monitors (steps : pstep list) (truths : string list) (impl : string) : 
           | _ -> ());
          let illtyped = contains t 'L' in
          if res = "panic" && not illtyped then add "lightclient-panics" where;
+         let fired = ref [] in
          if not illtyped && not (contains t 'U') then begin
-           if res = "ok" then List.iter (fun (c, key) -> if contains t c then add key where) flag_keys;
+           if res = "ok" then List.iter (fun (c, key) -> if contains t c then (fired := key :: !fired; add key where)) flag_keys;
            if starts res "err" && t = "-" then add "rejected-valid-update" (where ^ " " ^ res)
+         end;
+         (* the same clauses, by the model's characterisation on the model's own store *)
+         let mr = List.nth mres i in
+         if not illtyped && not (contains t 'U') then begin
+           (if res = "ok" then match model_says st genesis mr with
+             | Some key when not (List.mem key !fired) -> add key (where ^ " by-characterisation model=" ^ mr)
+             | _ -> ());
+           if starts res "err" && mr = "ok" && t <> "-" then add "rejected-valid-update" (where ^ " by-characterisation " ^ res)
          end;
          (match !prev, parse_digest dgs with
           | Some p, Some d ->
@@ -124,6 +158,12 @@ let hist_monitors (steps : pstep list) (truths : string list) (impl : string) : 
             if not illtyped && (d.froot <> p.froot || d.cur <> p.cur || d.next <> p.next) && st.nbits * 3 < 512 * 2 then
               add "finalized-changed-below-two-thirds" (Printf.sprintf "%s bits=%d" where st.nbits);
             if d.cur <> p.cur && d.cur <> p.next then add "committee-rotated-to-unknown" where;
+            (* C12_committees_step: after a rotation the next committee is what the update carries (nothing for a finality or
+               optimistic update); without a rotation it only changes from "none" to what the update carries *)
+            if d.cur <> p.cur && d.next <> next_of_update st then
+              add "next-committee-not-cleared-on-rotation" (Printf.sprintf "%s next=%s update-carries=%s" where (String.sub d.next 0 (min 8 (String.length d.next))) (let x = next_of_update st in String.sub x 0 (min 8 (String.length x))));
+            if d.cur = p.cur && d.next <> p.next && not (p.next = "-" && d.next = next_of_update st) then
+              add "next-committee-changed-without-rotation" where;
             if starts res "err" && not st.force && (d <> p) then add "store-changed-by-rejected-update" where;
             prev := Some d
           | _, None -> add "lightclient-panics" (where ^ " unreadable digest")
@@ -146,6 +186,7 @@ let handle fields impl : string option * string list =
     let steps = List.map (parse_step comms) (split ';' steps) in
     let truths = split ';' truths in
     let s = ref s0 in
+    let mres = ref [] in
     let obs = List.map (fun st ->
       let r = verify_wire !s st.conv st.now genesis st.fork in
       let res = ref (match r with Ok _ -> "ok" | Err e -> show_err e | Panic -> "panic") in
@@ -154,9 +195,10 @@ let handle fields impl : string option * string list =
         | Ok s' -> s := s'
         | _ -> res := "panic"
       end;
+      mres := !res :: !mres;
       !res ^ "/" ^ shape_of st.conv ^ "/" ^ digest !s) steps in
     let model = "ok " ^ String.concat ";" (digest s0 :: obs) in
-    (Some model, hist_monitors steps truths impl)
+    (Some model, hist_monitors steps truths (List.rev !mres) genesis impl)
   | ["boot"; _seed; checkpoint; hdr; exec_root; exec_br_root; comm; branch; now; max_age; strict; truth] ->
     let bd = { b_beacon = parse_hdr hdr; b_exec_root = hexb exec_root; b_exec_branch_root = hexb exec_br_root;
                b_committee = parse_comm comm; b_branch = (match parse_branch branch with Some l -> l | None -> []) } in
